@@ -169,7 +169,13 @@ def check(ck):
     def _is_field_set(n_, e_):
         t_ = prov.origin(g, n_, e_)
         return all(a_[0] == "call" and a_[1] == ("global", "_find_fields") for a_ in prov.value_alts(t_))
-    loops = [n for n in g.live_nodes() if n.kind == "for_body" and (dump(n.ast.iter) == "fields" or _is_field_set(n, n.ast.iter))]
+    def _unwrap_iter(e_):
+        # sorted(X) / list(X) / tuple(X) / iter(X): the same names in another order
+        while isinstance(e_, ast.Call) and isinstance(e_.func, ast.Name) and e_.func.id in ("sorted", "list", "tuple", "iter", "reversed") and \
+                len(e_.args) == 1 and not e_.keywords:
+            e_ = e_.args[0]
+        return e_
+    loops = [n for n in g.live_nodes() if n.kind == "for_body" and (dump(_unwrap_iter(n.ast.iter)) == "fields" or _is_field_set(n, _unwrap_iter(n.ast.iter)))]
     # the same filter written as a comprehension: X = [f for f in _find_fields(obj) if f not in <ignore list>], then `for .. in X`
     comp = []
     for n in g.live_nodes():
